@@ -22,6 +22,7 @@ import (
 	"github.com/vapourismo/knx-go/knx/knxnet"
 
 	"verif/internal/gateway"
+	"verif/internal/mcast"
 	"verif/internal/memsock"
 	"verif/internal/mon"
 	"verif/internal/spec"
@@ -708,6 +709,89 @@ func strand(seed int64, rounds int) {
 	r.DistinctStr(sig)
 }
 
+// realRouter is the loopback slice: the real knx.NewRouter (defaults applied by
+// the real constructor) on a per-process multicast group, observed by an
+// AF_PACKET capture; lost indications are injected as datagrams.
+func realRouter(id int, retain uint) {
+	sig := fmt.Sprintf("real-router retain=%d", retain)
+	r.Crumb("C14 %s", sig)
+	attrs := map[string]string{"workload": "real-router"}
+	l, err := mcast.Open(1000 + id)
+	if err != nil {
+		r.Inconclusive("real-router slice: " + err.Error())
+		return
+	}
+	defer l.Close()
+	rt, err := knx.NewRouter(l.Group, knx.RouterConfig{RetainCount: retain})
+	if err != nil {
+		r.Inconclusive("real-router slice: NewRouter: " + err.Error())
+		return
+	}
+	m := &model{cap: effRetain(retain)}
+	n := m.cap + 9
+	for i := 1; i <= n; i++ {
+		if rt.Send(gateway.Ind(uint32(i))) != nil {
+			r.Inconclusive(sig + ": Send failed on the real socket")
+			rt.Close()
+			return
+		}
+		m.push(uint32(i))
+	}
+	if !l.WaitCount(n, 5*time.Second) {
+		r.Inconclusive(sig + ": the capture did not see the transmissions; not judged")
+		rt.Close()
+		return
+	}
+	ids := func(from int) []uint32 {
+		var out []uint32
+		for _, f := range l.Frames(from) {
+			if p := spec.Parse(f.Bytes); p.OK && p.Service == spec.SvcRoutingInd {
+				id, _ := gateway.IDOfBytes(p.Cemi)
+				out = append(out, id)
+			}
+		}
+		return out
+	}
+	for _, k := range []int{3, 65535, 0, 1} {
+		from := l.Count()
+		want := m.pop(k)
+		l.Inject((&spec.Frame{Service: spec.SvcRoutingLost, Count: uint16(k)}).Encode())
+		l.WaitCount(from+len(want), 5*time.Second)
+		time.Sleep(5 * time.Millisecond)
+		got := ids(from)
+		atomic.AddInt64(&nLost, 1)
+		atomic.AddInt64(&nResent, int64(len(got)))
+		if !eq(got, want) {
+			r.Violate("resend.sequence", attrs, map[string]interface{}{"history": sig, "lost_count": k, "resent": got, "expected": want},
+				"[%s] after a lost indication with count %d the client (built by the real NewRouter) retransmitted %v; expected %v", sig, k, got, want)
+			rt.Close()
+			return
+		}
+		for _, w := range want {
+			m.push(w)
+		}
+		if got, ok := retainedIDs(rt, sig); ok && !eq(got, m.list) {
+			r.Violate("retained.content", attrs, map[string]interface{}{"history": sig, "retained": got, "model": m.list}, "[%s] the retained list is %v, expected %v (bound %d)", sig, got, m.list, m.cap)
+			rt.Close()
+			return
+		}
+	}
+	rt.Close()
+	select {
+	case _, ok := <-rt.Inbound():
+		if ok {
+			// the injected indications are not routing indications; nothing may surface
+			r.Violate("inbound.exactly-once", attrs, map[string]interface{}{"history": sig}, "[%s] a message surfaced on Inbound although no routing indication was received", sig)
+		}
+	case <-time.After(5 * time.Second):
+		r.Violate("inbound.not-closed", attrs, map[string]interface{}{"history": sig}, "[%s] Inbound was not closed within 5 s after Close", sig)
+		return
+	}
+	atomic.AddInt64(&nHist, 1)
+	r.Eval(1)
+	r.DistinctStr(sig)
+}
+
 func head(a []uint32) []uint32 {
 	if len(a) > 10 {
 		return a[:10]
@@ -755,6 +839,11 @@ func run(rr *mon.Run) {
 	}
 	if !r.Enough() {
 		strand(r.Seed()*9300, r.Pick(30000, 600000))
+	}
+	for i, rc := range []uint{0, 5, 1, 64} {
+		if !r.Enough() {
+			realRouter(i, rc)
+		}
 	}
 	r.Observe("histories_completed", nHist)
 	r.Observe("concurrent_histories_closed_mid_way", nClosedMid)
